@@ -97,6 +97,7 @@ func genStorm(t *rapid.T) *StormCase {
 		}
 	}
 	sc.Probe = rapid.SliceOfN(rapid.IntRange(0, sc.Addrs-1), 0, 3).Draw(t, "probe")
+	sc.Names = genNames(t, sc.Addrs)
 	return sc
 }
 
@@ -163,6 +164,7 @@ func genWideScenario(t *rapid.T) *Scenario {
 	g := rapid.Custom(genStepN(sc.Addrs, sc.Threads, sc.Threads+8))
 	sc.Steps = append(sc.Steps, rapid.SliceOfN(g, 1, 30).Draw(t, "steps")...)
 	sc.Steps = append(sc.Steps, rapid.SliceOfN(g, 0, 30).Draw(t, "more")...)
+	sc.Names = genNames(t, sc.Addrs)
 	return sc
 }
 
